@@ -865,8 +865,8 @@ pub fn w_proj(x: &W) -> String {
 
 /// identity projection: `<X as Idt>::T` is `X` spelled as a qualified path
 pub trait Idt {
-    type T;
+    type Same;
 }
 impl<X> Idt for X {
-    type T = X;
+    type Same = X;
 }
